@@ -56,6 +56,18 @@ def family_wcs(kind, nd, shape=None, unset=False):
         from astropy.wcs.wcsapi import HighLevelWCSWrapper
         from ndcube.wcs.wrappers import ResampledLowLevelWCS
         return HighLevelWCSWrapper(ResampledLowLevelWCS(lin_wcs(nd), 2, 0.5))
+    if kind in ("reordered", "reordered2"):
+        # an already wrapped WCS: ndcube's reordering wrapper over the coupled celestial family, with a world order
+        # that is NOT the inverse of the pixel order
+        from ndcube.wcs.wrappers import ReorderedLowLevelWCS
+        po, wo = _reorder_orders(kind, nd)
+        return ReorderedLowLevelWCS(family_wcs("tan", nd), po, wo)
+    if kind == "compound":
+        # an already wrapped WCS: ndcube's compound wrapper whose FIRST member has 1 pixel and 2 world axes (an
+        # integer-sliced celestial pair), followed by a separable member
+        from astropy.wcs.wcsapi import SlicedLowLevelWCS
+        from ndcube.wcs.wrappers import CompoundLowLevelWCS
+        return CompoundLowLevelWCS(SlicedLowLevelWCS(family_wcs("tan", 2), [slice(None), 1]), lin_wcs(nd - 1))
     w = WCS(naxis=nd)
     if kind == "tan":          # coupled celestial pair on pixel axes 0,1 (+ WAVE, TIME)
         ct = ['HPLN-TAN', 'HPLT-TAN', 'WAVE', 'TIME'][:nd]
@@ -83,6 +95,28 @@ def family_wcs(kind, nd, shape=None, unset=False):
     return w
 
 
+def _reorder_orders(kind, nd):
+    if kind == "reordered":
+        return list(range(1, nd)) + [0], list(range(nd))
+    return list(range(nd))[::-1], [nd - 1] + list(range(nd - 1))
+
+
+def family_corr(kind, nd):
+    """The correlation matrix (world x pixel) of the wrapped families, stated from their construction and astropy's
+    own FITS WCS - independent of ndcube's wrappers.  None for the other families."""
+    if kind in ("reordered", "reordered2"):
+        po, wo = _reorder_orders(kind, nd)
+        base = np.asarray(family_wcs("tan", nd).axis_correlation_matrix)
+        return base[wo][:, po]
+    if kind == "compound":
+        m = np.zeros((nd + 1, nd), dtype=bool)
+        m[0, 0] = m[1, 0] = True
+        for k in range(nd - 1):
+            m[2 + k, 1 + k] = True
+        return m
+    return None
+
+
 FAMILIES = {1: ["lin"], 2: ["lin", "tan", "rot"], 3: ["lin", "tan", "tan_split", "rot"],
             4: ["lin", "tan", "tan_split", "rot"]}
 
@@ -108,7 +142,7 @@ def lin_offsets(low_level_wcs, nd):
     return [list(res[nd - 1 - a]) if (nd - 1 - a) in res else None for a in range(nd)]
 
 
-def wcs_lockstep_fail(orig, sliced, item):
+def wcs_lockstep_fail(orig, sliced, item, corr=None):
     """direct oracle: every surviving element reports, through the sliced cube's wcs, the world
     coordinates it had in the original cube.  Returns '' or a description."""
     shape = orig.data.shape
@@ -140,11 +174,16 @@ def wcs_lockstep_fail(orig, sliced, item):
             opix_arr.append(grid[g] + starts[a])
             g += 1
     opix = opix_arr[::-1]
+    if corr is not None:      # (a 1-D FITS member of a compound WCS takes no N-D pixel arrays: an astropy restriction)
+        spix, opix = [np.ravel(x) for x in spix], [np.ravel(x) for x in opix]
     ws = sll.pixel_to_world_values(*spix)
     wo = oll.pixel_to_world_values(*opix)
     ws = [ws] if sll.world_n_dim == 1 else list(ws)
     wo = [wo] if oll.world_n_dim == 1 else list(wo)
-    corr = oll.axis_correlation_matrix
+    if corr is None:
+        corr = oll.axis_correlation_matrix
+    elif not np.array_equal(np.asarray(oll.axis_correlation_matrix).astype(bool), corr):
+        return f"the source wcs reports the correlation matrix {np.asarray(oll.axis_correlation_matrix).astype(int).tolist()}, by construction it is {corr.astype(int).tolist()}"
     kept_pix = [nd - 1 - a for a in range(nd) if not dropped[a]]
     keep_w = [w for w in range(oll.world_n_dim) if corr[w, kept_pix].any()]
     if len(keep_w) != len(ws):
